@@ -248,6 +248,7 @@ func Check(c Case) *kit.Violation {
 	wrapped := false  // a probe had to look at the stream
 	wrappedAtClose := false
 	probes := 0
+	probedAfterClose := false
 
 	hist := func(i int) string {
 		return fmt.Sprintf("op %d of %v on %+v", i, c.Ops, sc)
@@ -270,6 +271,11 @@ func Check(c Case) *kit.Violation {
 		if closed {
 			// every read after close fails, a zero-length one included (the closed state is checked before anything else, as
 			// net/http's bodies and os.File do)
+			if n == 0 && probedAfterClose && k == 0 {
+				// the body was probed again after it had been closed: what answers now is a fresh wrapper around the closed
+				// one, and a read that asks for nothing is answered by its buffer; only reads that ask for bytes are judged
+				return nil
+			}
 			if wrappedAtClose && (k != 0 || rerr == nil) {
 				return kit.Failf("%s: read after close returned %d bytes, err=%v; it must fail (%s)", what, k, rerr, hist(i))
 			}
@@ -305,6 +311,18 @@ func Check(c Case) *kit.Violation {
 	for i, op := range c.Ops {
 		switch op.K {
 		case "has":
+			if closed && !termSeen && req.Body != nil {
+				// asking once more after the body was closed: the answer is not judged (the stream is gone), but the
+				// probe must not undo the close: later closes still leave the stream closed exactly once, later reads fail
+				if v := kit.Guard("HasBody after Close", func() { _ = rt.HasBody(req) }); v != nil {
+					return kit.Failf("%s (%s)", v.Msg, hist(i))
+				}
+				probedAfterClose = true
+				if st != nil && wrappedAtClose && st.closes != 1 {
+					return kit.Failf("a probe after Close left the underlying stream closed %d times, want exactly 1 (%s)", st.closes, hist(i))
+				}
+				continue
+			}
 			if closed || termSeen {
 				continue
 			}
